@@ -8,7 +8,7 @@ SIZES = [2, 4097, 32769, 70001, 200001]
 _ver = [0]
 
 
-async def realise(ctx, sq, n, scen, rnd):
+async def realise(ctx, sq, n, scen, rnd, slack=1.0):
     par = scen['par']
     ev = []
     L = rnd.choice(SIZES)
@@ -77,16 +77,16 @@ async def realise(ctx, sq, n, scen, rnd):
         for cid, p, w in followers:
             if p == point:
                 tasks.append(asyncio.ensure_future(client(cid, w)))
-        await asyncio.sleep(0.04)
+        await asyncio.sleep(0.04 * slack)        # margin for Squid to accept and parse the request before the origin moves on
     await launch('beforeHead')
     go['head'].set()
-    await asyncio.sleep(0.03)
+    await asyncio.sleep(0.03 * slack)
     await launch('afterHead')
     go['half'].set()
-    await asyncio.sleep(0.03)
+    await asyncio.sleep(0.03 * slack)
     await launch('midBody')
     go['finish'].set()
-    await asyncio.sleep(0.05)
+    await asyncio.sleep(0.05 * slack)
     await launch('afterDone')
     await asyncio.gather(*tasks)
     await asyncio.sleep(0.02)
@@ -131,7 +131,33 @@ def run(ctx):
             sq.stop()
     rej = escen.validate(ctx, os.path.join(SPEC, 'Trace_Collapse.tla'), os.path.join(SPEC, 'Trace_Collapse.cfg'), [{'ev': fill(o['ev'])} for o in out], 'collapse')
     ctx.log('realised %d bursts; P-rejected %d' % (len(out), len(rej)))
-    for i in rej[:5]:
+    # reproduce before reporting (T5): "arrived while the fetch was open" is judged from the client's send time; under load
+    # Squid may get to the request only after the fetch ended.  A rejected burst is re-run alone, twice, on a fresh squid
+    # with six times wider margins; it is reported only if it is rejected every time.
+    confirmed = []
+    for i in rej[:6]:
+        o = out[i]
+        workers = o['par']['workers']
+        sq = squidctl.Squid(ctx, tree, name='c18-re%d' % i, clock=False, workers=workers if workers > 1 else 0, cache_mem='64 MB',
+                            conf_extra='collapsed_forwarding on\n' + ('memory_cache_shared on\n' if workers > 1 else '') + 'maximum_object_size_in_memory 1 MB\nread_timeout 10 seconds\n')
+        sq.start(wait=40)
+        try:
+            again = []
+            for a in range(2):
+                r = asyncio.run(realise(ctx, sq, 900000 + i * 10 + a, {'par': o['par'], 'extra': o['pred_extra']}, random.Random(ctx.seed * 7 + i), slack=6.0))
+                if r:
+                    r['len'] = r['len']
+                    again.append(r)
+        finally:
+            sq.stop()
+        rej2 = escen.validate(ctx, os.path.join(SPEC, 'Trace_Collapse.tla'), os.path.join(SPEC, 'Trace_Collapse.cfg'), [{'ev': fill(r['ev'])} for r in again], 'collapse-re%d' % i) if again else []
+        if again and len(rej2) == len(again):
+            out[i] = again[-1]
+            confirmed.append(i)
+        else:
+            ctx.add('not_reproduced_with_wide_margins', 1)
+    ctx.log('reproduced %d of %d rejections' % (len(confirmed), min(len(rej), 6)))
+    for i in confirmed[:5]:
         o = out[i]
         ctx.violation('collapsed forwarding history violates Collapse.tla: %s fetches=%d events=%s' % (json.dumps(o['par']), o['fetches'], json.dumps([e for e in o['ev'] if e['e'] != 'Req'])[:900]),
                       {'kind': 'collapse', 'scenario': o})
@@ -146,5 +172,5 @@ def run(ctx):
     for o in out[:2]:
         ctx.sample({'par': o['par'], 'len': o['len'], 'events': o['ev']})
     ctx.cov['rule'] = ('classes = CollapseScen.tla (arrival point of 2-3 followers relative to the writer\'s fetch x outcome ok/abort/unshareable x worker assignment, 1 and 2 workers); '
-                       'the driver holds the origin\'s reply at head / mid-body / end so that followers arrive exactly there; histories validated by TLC against Collapse.tla.')
+                       'the driver holds the origin\'s reply at head / mid-body / end so that followers arrive exactly there; histories validated by TLC against Collapse.tla; a rejected burst is re-run alone with wide timing margins before it is reported.')
     ctx.assumptions += ['per-worker listening ports (squid.conf conditionals) pin clients to workers']
